@@ -107,7 +107,24 @@ void *sym_fn(const char *name)
 
 #ifdef SYM_DRAWS
 /* the raw generator output is an input of the path: every call takes the next recorded draw */
-uint64_t cmb_random_sfc64(void) { return next_val('i', "draw"); }
+static int draws_exhausted;
+static uint64_t draw_fill = 0x9E3779B97F4A7C15ull;
+uint64_t cmb_random_sfc64(void)
+{
+    /* a violation reported in mid-path leaves the rest of the draws open: any value is an admissible continuation */
+    if (!draws_exhausted) {
+        open_in();
+        long pos = ftell(in);
+        char k; char nm[256]; uint64_t v;
+        if (fscanf(in, " %c %255s %" SCNu64, &k, nm, &v) == 3) {
+            fseek(in, pos, SEEK_SET);
+            return next_val('i', "draw");
+        }
+        draws_exhausted = 1;
+    }
+    draw_fill = draw_fill * 6364136223846793005ull + 1442695040888963407ull;
+    return (draw_fill & ~0xffull) | 1u;      /* stays on the ziggurat hot paths */
+}
 #endif
 
 int main(void)
